@@ -17,6 +17,7 @@ fn factory(model: &str) -> Option<Factory> {
         "checkpoint" => Box::new(|c: &Value| Box::new(models::checkpoint::CK::new(c)) as Box<dyn Model>),
         "windows" => Box::new(|c: &Value| Box::new(models::windows::WN::new(c)) as Box<dyn Model>),
         "join" => Box::new(|c: &Value| Box::new(models::join::JN::new(c)) as Box<dyn Model>),
+        "backward" => Box::new(|c: &Value| Box::new(models::backward::BW::new(c)) as Box<dyn Model>),
         _ => return None,
     })
 }
@@ -55,6 +56,7 @@ fn main() {
         Some("ckcrash") => models::checkpoint::cmd_ckcrash(&args),
         Some("joinrec") => models::join::cmd_joinrec(&args),
         Some("reterec") => models::rete::cmd_reterec(&args),
+        Some("bwrec") => models::backward::cmd_bwrec(&args),
         Some("kbstress") => models::kb::cmd_stress(&args),
         _ => {
             eprintln!("usage: vh replay|replay-one <model> <file> [opts]");
